@@ -9,13 +9,17 @@ open Spec
 
 theorem asPosUsizeV_of_pos {idx : Val} {k : Int} (h : IsPos idx k) :
     asPosUsize idx = .ok (puOfInt k) ∨
-    (usizeMaxN < k.natAbs ∧ asPosUsize idx = .error (.typ idx tyInt)) := by
+    (usizeMaxN < k.natAbs ∧ fixBigintBound = false ∧ asPosUsize idx = .error (.typ idx tyInt)) ∨
+    (usizeMaxN < k.natAbs ∧ fixBigintBound = true ∧ asPosUsize idx = .ok (decide (0 ≤ k), usizeMaxN)) := by
   cases h with
   | int => exact .inl (by simp [asPosUsize, asPosUsize_int])
   | big =>
     by_cases hb : k.natAbs ≤ usizeMaxN
     · exact .inl (by simp [asPosUsize, asPosUsize_big k hb])
-    · exact .inr ⟨by omega, by simp [asPosUsize, asPosUsize_big_none k (by omega)]⟩
+    · have hb' : usizeMaxN < k.natAbs := by omega
+      cases hfx : fixBigintBound
+      · exact .inr (.inl ⟨hb', rfl, by simp [asPosUsize, asPosUsize_big_beyond k hb', hfx]⟩)
+      · exact .inr (.inr ⟨hb', rfl, by simp [asPosUsize, asPosUsize_big_beyond k hb', hfx]⟩)
 
 /-- the array arm of `map_index`, on an integer index -/
 theorem mapIndex_arr_num (a : List Val) (n : Num) (opt : Opt) (f : Upd) :
